@@ -7,6 +7,16 @@ HERE = os.path.dirname(os.path.abspath(__file__))
 
 # property -> (technique, level text, level note, design ref)
 CLAIMED = {
+    'C20': ('inventory of module-level mutable state with alias-aware writer analysis against a frozen allow-list; '
+            'threading.local structure check; dominance / no-raise-after-update on the CFG of set_options(); try/finally '
+            'restore shape of options(); validate-before-kernel dominance for every public **options method; mutation '
+            'check of received option mappings; option registry agreement; root-keyed registry access',
+            'Static: decides isolation by non-interference - the only cross-call state is the thread-local option store '
+            '(written only by set_options / the options() restore, validated before a single bulk update, restored in '
+            'finally) and the modification registry (written only by the context manager, keyed by the tree root, no '
+            'whole-registry operations). Thread schedules are not enumerated; the argument is absence of shared writes.',
+            'Assumes atomic single-item dict operations in CPython; trusts the frozen allow-list of writers.',
+            'DESIGN.md §2 C20'),
     'C17': ('tag-stack depth typestate over per-function CFGs (new_tagss / pop_merge_tagss / discard_tagss pairing); '
             'shared-singleton mutation taint with fixpoint over "may return shared" summaries; fresh-or-cleared state '
             'dominance in loops; pattern registry self-consistency',
@@ -75,7 +85,7 @@ NOT_APPLICABLE = {
            'conservation is value-level. Its two structural clauses are checked as R5.1 and R7.3.',
 }
 
-PLANNED = ['C01', 'C02', 'C04', 'C05', 'C06', 'C07', 'C10', 'C11', 'C12', 'C15', 'C20']
+PLANNED = ['C01', 'C02', 'C04', 'C05', 'C06', 'C07', 'C10', 'C11', 'C12', 'C15']
 
 
 def main():
